@@ -96,7 +96,7 @@ def run(ctx):
             return c, engines.observe(plain, sc.sub("nest/" + name), {"main.nano": text}, vm=False, verbose=True)
 
         from .. import tables
-        bt = [t[:4] for t in tables.builtin_tables(shadow_driven=True)]
+        bt = [t[:4] for t in tables.builtin_tables(shadow_driven=True)] + [t[:4] for t in tables.hashmap_tables(shadow_driven=True)]
         for (name, text, exp, ncell), o in pmap(do_nest, nesting_programs(shadow_driven=True) + bt):
             if not o.built:
                 ctx.violation("group|%s|build" % name, "grouping table %s does not compile: %s" % (name, engines.classify_nanoc_failure(o.nanoc)),
@@ -115,6 +115,9 @@ def run(ctx):
                 continue
             group_cells += ncell
             for a, b, w in [(a, b, w) for a, b, w in zip(il, nl_, exp.splitlines()) if a != b][:50]:
+                if name.startswith("hm_"):
+                    ctx.violation("hashmap|%s" % name, "hashmap table %s: evaluator printed '%s', binary printed '%s' (specification: '%s')" % (name, a, b, w), {"main.nano": text})
+                    break
                 if name.startswith("bt_"):
                     ctx.violation("btable|%s" % w.split()[0], "builtin table cell '%s': evaluator printed '%s', binary printed '%s'" % (w, a, b), {"main.nano": text})
                     continue
